@@ -6,15 +6,15 @@ package main
 func init() {
 	// symbol definition: flags are or-ed into an existing symbol, a second DefParam for the same name is a SyntaxError (duplicate argument), parameters are appended to Varnames in order, a global declaration is mirrored into the module table [symtable.c symtable_add_def]  []
 	pathSpec["symtable|SymTable.AddDef"] = []string{
-		"[!(has(st.Symbols[mangled])) && (flags & DefParam) != 0] st.Symbols[mangled] = composite[0,flags,ret:node.GetLineno(),ret:node.GetColOffset()]; st.Varnames = append(st.Varnames, name)",
-		"[!(has(st.Symbols[mangled])) && (flags & DefParam) == 0 && (flags & DefGlobal) != 0 && !(has(st.Global.Symbols[mangled]))] st.Symbols[mangled] = composite[0,flags,ret:node.GetLineno(),ret:node.GetColOffset()]; st.Global.Symbols[mangled] = composite[0,flags,ret:node.GetLineno(),ret:node.GetColOffset()]",
-		"[!(has(st.Symbols[mangled])) && (flags & DefParam) == 0 && (flags & DefGlobal) != 0 && has(st.Global.Symbols[mangled])] st.Symbols[mangled] = composite[0,flags,ret:node.GetLineno(),ret:node.GetColOffset()]; sym.Flags |= flags; st.Global.Symbols[mangled] = st.Global.Symbols[name]",
-		"[!(has(st.Symbols[mangled])) && (flags & DefParam) == 0 && (flags & DefGlobal) == 0] st.Symbols[mangled] = composite[0,flags,ret:node.GetLineno(),ret:node.GetColOffset()]",
-		"[has(st.Symbols[mangled]) && (flags & DefParam) != 0 && (sym.Flags & DefParam) != 0]  -> raise",
-		"[has(st.Symbols[mangled]) && (flags & DefParam) != 0 && (sym.Flags & DefParam) == 0] sym.Flags |= flags; st.Symbols[mangled] = st.Symbols[name]; st.Varnames = append(st.Varnames, name)",
-		"[has(st.Symbols[mangled]) && (flags & DefParam) == 0 && (flags & DefGlobal) != 0 && !(has(st.Global.Symbols[mangled]))] sym.Flags |= flags; st.Symbols[mangled] = st.Symbols[name]; st.Global.Symbols[mangled] = composite[0,flags,ret:node.GetLineno(),ret:node.GetColOffset()]",
-		"[has(st.Symbols[mangled]) && (flags & DefParam) == 0 && (flags & DefGlobal) != 0 && has(st.Global.Symbols[mangled])] sym.Flags |= flags; st.Symbols[mangled] = st.Symbols[name]; sym.Flags |= flags; st.Global.Symbols[mangled] = st.Global.Symbols[name]",
-		"[has(st.Symbols[mangled]) && (flags & DefParam) == 0 && (flags & DefGlobal) == 0] sym.Flags |= flags; st.Symbols[mangled] = st.Symbols[name]",
+		"[!(has(st.Global.Symbols[mangled])) && !(has(st.Symbols[mangled])) && bits(flags,0,1) != 0 && bits(flags,0,4) == 0] st.Symbols[mangled] = composite[0,flags,ret:node.GetLineno(),ret:node.GetColOffset()]; st.Global.Symbols[mangled] = composite[0,flags,ret:node.GetLineno(),ret:node.GetColOffset()]",
+		"[!(has(st.Global.Symbols[mangled])) && bits(flags,0,1) != 0 && bits(flags,0,4) == 0 && has(st.Symbols[mangled])] sym.Flags |= flags; st.Symbols[mangled] = st.Symbols[name]; st.Global.Symbols[mangled] = composite[0,flags,ret:node.GetLineno(),ret:node.GetColOffset()]",
+		"[!(has(st.Symbols[mangled])) && bits(flags,0,1) != 0 && bits(flags,0,4) == 0 && has(st.Global.Symbols[mangled])] st.Symbols[mangled] = composite[0,flags,ret:node.GetLineno(),ret:node.GetColOffset()]; sym.Flags |= flags; st.Global.Symbols[mangled] = st.Global.Symbols[name]",
+		"[!(has(st.Symbols[mangled])) && bits(flags,0,1) == 0 && bits(flags,0,4) == 0] st.Symbols[mangled] = composite[0,flags,ret:node.GetLineno(),ret:node.GetColOffset()]",
+		"[!(has(st.Symbols[mangled])) && bits(flags,0,4) != 0] st.Symbols[mangled] = composite[0,flags,ret:node.GetLineno(),ret:node.GetColOffset()]; st.Varnames = append(st.Varnames, name)",
+		"[bits(flags,0,1) != 0 && bits(flags,0,4) == 0 && has(st.Global.Symbols[mangled]) && has(st.Symbols[mangled])] sym.Flags |= flags; st.Symbols[mangled] = st.Symbols[name]; sym.Flags |= flags; st.Global.Symbols[mangled] = st.Global.Symbols[name]",
+		"[bits(flags,0,1) == 0 && bits(flags,0,4) == 0 && has(st.Symbols[mangled])] sym.Flags |= flags; st.Symbols[mangled] = st.Symbols[name]",
+		"[bits(flags,0,4) != 0 && bits(st.Symbols[name].Flags,0,4) != 0 && has(st.Symbols[mangled])]  -> raise",
+		"[bits(flags,0,4) != 0 && bits(st.Symbols[name].Flags,0,4) == 0 && has(st.Symbols[mangled])] sym.Flags |= flags; st.Symbols[mangled] = st.Symbols[name]; st.Varnames = append(st.Varnames, name)",
 	}
 	// a function read through an instance binds the instance; read through the class it stays a function  []
 	pathSpec["py|Function.M__get__"] = []string{
@@ -37,43 +37,43 @@ func init() {
 	}
 	// line-at-a-time driver: in continuation mode a non-empty line is only buffered; an empty line (or any line outside continuation mode) compiles buffer+line; an incomplete-input error buffers the line and enters continuation mode; any other outcome leaves continuation mode and clears the buffer before reporting or running  []
 	pathSpec["repl|REPL.Run"] = []string{
-		"[!(r.continuation) && toCompile != \"\" && err != nil && !(strings.Contains(errText, \"unexpected EOF while parsing\")) && !(strings.Contains(errText, \"EOF while scanning triple-quoted string literal\"))] vm.PrintExpr = r.term.Print; defer(func() { vm.PrintExpr = oldPrintExpr }()); Compile(toCompile + \"\\n\", r.prog, py.SingleMode, 0, true); r.continuation = false; r.term.SetPrompt(NormalPrompt); r.previous = \"\"; r.term.Print(fmt.Sprintf#0) -> nil",
-		"[!(r.continuation) && toCompile != \"\" && err != nil && !(strings.Contains(errText, \"unexpected EOF while parsing\")) && strings.Contains(errText, \"EOF while scanning triple-quoted string literal\") && !(len(stripped) > 0 && stripped[0] == '#')] vm.PrintExpr = r.term.Print; defer(func() { vm.PrintExpr = oldPrintExpr }()); Compile(toCompile + \"\\n\", r.prog, py.SingleMode, 0, true); r.continuation = true; r.previous += string(line) + \"\\n\"; r.term.SetPrompt(ContinuationPrompt) -> nil",
-		"[!(r.continuation) && toCompile != \"\" && err != nil && !(strings.Contains(errText, \"unexpected EOF while parsing\")) && strings.Contains(errText, \"EOF while scanning triple-quoted string literal\") && len(stripped) > 0 && stripped[0] == '#'] vm.PrintExpr = r.term.Print; defer(func() { vm.PrintExpr = oldPrintExpr }()); Compile(toCompile + \"\\n\", r.prog, py.SingleMode, 0, true) -> nil",
-		"[!(r.continuation) && toCompile != \"\" && err != nil && strings.Contains(errText, \"unexpected EOF while parsing\") && !(len(stripped) > 0 && stripped[0] == '#')] vm.PrintExpr = r.term.Print; defer(func() { vm.PrintExpr = oldPrintExpr }()); Compile(toCompile + \"\\n\", r.prog, py.SingleMode, 0, true); r.continuation = true; r.previous += string(line) + \"\\n\"; r.term.SetPrompt(ContinuationPrompt) -> nil",
-		"[!(r.continuation) && toCompile != \"\" && err != nil && strings.Contains(errText, \"unexpected EOF while parsing\") && len(stripped) > 0 && stripped[0] == '#'] vm.PrintExpr = r.term.Print; defer(func() { vm.PrintExpr = oldPrintExpr }()); Compile(toCompile + \"\\n\", r.prog, py.SingleMode, 0, true) -> nil",
-		"[!(r.continuation) && toCompile != \"\" && err == nil && !(py.IsException(py.SystemExit, err))] vm.PrintExpr = r.term.Print; defer(func() { vm.PrintExpr = oldPrintExpr }()); Compile(toCompile + \"\\n\", r.prog, py.SingleMode, 0, true); r.continuation = false; r.term.SetPrompt(NormalPrompt); r.previous = \"\"; r.Context.RunCode(dyn:py.Compile#0, r.Module.Globals, r.Module.Globals, nil); TracebackDump(err!) -> nil",
-		"[!(r.continuation) && toCompile != \"\" && err == nil && py.IsException(py.SystemExit, err)] vm.PrintExpr = r.term.Print; defer(func() { vm.PrintExpr = oldPrintExpr }()); Compile(toCompile + \"\\n\", r.prog, py.SingleMode, 0, true); r.continuation = false; r.term.SetPrompt(NormalPrompt); r.previous = \"\"; r.Context.RunCode(dyn:py.Compile#0, r.Module.Globals, r.Module.Globals, nil) -> err!",
-		"[!(r.continuation) && toCompile != \"\" && err == nil] vm.PrintExpr = r.term.Print; defer(func() { vm.PrintExpr = oldPrintExpr }()); Compile(toCompile + \"\\n\", r.prog, py.SingleMode, 0, true); r.continuation = false; r.term.SetPrompt(NormalPrompt); r.previous = \"\"; r.Context.RunCode(dyn:py.Compile#0, r.Module.Globals, r.Module.Globals, nil) -> nil",
+		"[!(len(stripped) > 0 && stripped[0] == '#') && !(r.continuation) && !(strings.Contains(errText, \"unexpected EOF while parsing\")) && err != nil && strings.Contains(errText, \"EOF while scanning triple-quoted string literal\") && toCompile != \"\"] vm.PrintExpr = r.term.Print; defer(func() { vm.PrintExpr = oldPrintExpr }()); Compile(toCompile + \"\\n\", r.prog, py.SingleMode, 0, true); r.continuation = true; r.previous += string(line) + \"\\n\"; r.term.SetPrompt(ContinuationPrompt) -> nil",
+		"[!(len(stripped) > 0 && stripped[0] == '#') && !(r.continuation) && err != nil && strings.Contains(errText, \"unexpected EOF while parsing\") && toCompile != \"\"] vm.PrintExpr = r.term.Print; defer(func() { vm.PrintExpr = oldPrintExpr }()); Compile(toCompile + \"\\n\", r.prog, py.SingleMode, 0, true); r.continuation = true; r.previous += string(line) + \"\\n\"; r.term.SetPrompt(ContinuationPrompt) -> nil",
+		"[!(len(stripped) > 0 && stripped[0] == '#') && !(strings.Contains(errText, \"unexpected EOF while parsing\")) && err != nil && line == \"\" && r.continuation && strings.Contains(errText, \"EOF while scanning triple-quoted string literal\") && toCompile != \"\"] vm.PrintExpr = r.term.Print; defer(func() { vm.PrintExpr = oldPrintExpr }()); Compile(toCompile + \"\\n\", r.prog, py.SingleMode, 0, true); r.continuation = true; r.previous += string(line) + \"\\n\"; r.term.SetPrompt(ContinuationPrompt) -> nil",
+		"[!(len(stripped) > 0 && stripped[0] == '#') && err != nil && line == \"\" && r.continuation && strings.Contains(errText, \"unexpected EOF while parsing\") && toCompile != \"\"] vm.PrintExpr = r.term.Print; defer(func() { vm.PrintExpr = oldPrintExpr }()); Compile(toCompile + \"\\n\", r.prog, py.SingleMode, 0, true); r.continuation = true; r.previous += string(line) + \"\\n\"; r.term.SetPrompt(ContinuationPrompt) -> nil",
+		"[!(py.IsException(py.SystemExit, err)) && !(r.continuation) && err == nil && toCompile != \"\"] vm.PrintExpr = r.term.Print; defer(func() { vm.PrintExpr = oldPrintExpr }()); Compile(toCompile + \"\\n\", r.prog, py.SingleMode, 0, true); r.continuation = false; r.term.SetPrompt(NormalPrompt); r.previous = \"\"; r.Context.RunCode(dyn:py.Compile#0, r.Module.Globals, r.Module.Globals, nil); TracebackDump(err!) -> nil",
+		"[!(py.IsException(py.SystemExit, err)) && err == nil && line == \"\" && r.continuation && toCompile != \"\"] vm.PrintExpr = r.term.Print; defer(func() { vm.PrintExpr = oldPrintExpr }()); Compile(toCompile + \"\\n\", r.prog, py.SingleMode, 0, true); r.continuation = false; r.term.SetPrompt(NormalPrompt); r.previous = \"\"; r.Context.RunCode(dyn:py.Compile#0, r.Module.Globals, r.Module.Globals, nil); TracebackDump(err!) -> nil",
+		"[!(r.continuation) && !(strings.Contains(errText, \"EOF while scanning triple-quoted string literal\")) && !(strings.Contains(errText, \"unexpected EOF while parsing\")) && err != nil && toCompile != \"\"] vm.PrintExpr = r.term.Print; defer(func() { vm.PrintExpr = oldPrintExpr }()); Compile(toCompile + \"\\n\", r.prog, py.SingleMode, 0, true); r.continuation = false; r.term.SetPrompt(NormalPrompt); r.previous = \"\"; r.term.Print(fmt.Sprintf#0) -> nil",
+		"[!(r.continuation) && !(strings.Contains(errText, \"unexpected EOF while parsing\")) && err != nil && len(stripped) > 0 && stripped[0] == '#' && strings.Contains(errText, \"EOF while scanning triple-quoted string literal\") && toCompile != \"\"] vm.PrintExpr = r.term.Print; defer(func() { vm.PrintExpr = oldPrintExpr }()); Compile(toCompile + \"\\n\", r.prog, py.SingleMode, 0, true) -> nil",
+		"[!(r.continuation) && err != nil && len(stripped) > 0 && stripped[0] == '#' && strings.Contains(errText, \"unexpected EOF while parsing\") && toCompile != \"\"] vm.PrintExpr = r.term.Print; defer(func() { vm.PrintExpr = oldPrintExpr }()); Compile(toCompile + \"\\n\", r.prog, py.SingleMode, 0, true) -> nil",
+		"[!(r.continuation) && err == nil && py.IsException(py.SystemExit, err) && toCompile != \"\"] vm.PrintExpr = r.term.Print; defer(func() { vm.PrintExpr = oldPrintExpr }()); Compile(toCompile + \"\\n\", r.prog, py.SingleMode, 0, true); r.continuation = false; r.term.SetPrompt(NormalPrompt); r.previous = \"\"; r.Context.RunCode(dyn:py.Compile#0, r.Module.Globals, r.Module.Globals, nil) -> err!",
+		"[!(r.continuation) && err == nil && toCompile != \"\"] vm.PrintExpr = r.term.Print; defer(func() { vm.PrintExpr = oldPrintExpr }()); Compile(toCompile + \"\\n\", r.prog, py.SingleMode, 0, true); r.continuation = false; r.term.SetPrompt(NormalPrompt); r.previous = \"\"; r.Context.RunCode(dyn:py.Compile#0, r.Module.Globals, r.Module.Globals, nil) -> nil",
 		"[!(r.continuation) && toCompile == \"\"] vm.PrintExpr = r.term.Print; defer(func() { vm.PrintExpr = oldPrintExpr }()) -> nil",
-		"[r.continuation && line != \"\"] vm.PrintExpr = r.term.Print; defer(func() { vm.PrintExpr = oldPrintExpr }()); r.previous += string(line) + \"\\n\" -> nil",
-		"[r.continuation && line == \"\" && toCompile != \"\" && err != nil && !(strings.Contains(errText, \"unexpected EOF while parsing\")) && !(strings.Contains(errText, \"EOF while scanning triple-quoted string literal\"))] vm.PrintExpr = r.term.Print; defer(func() { vm.PrintExpr = oldPrintExpr }()); Compile(toCompile + \"\\n\", r.prog, py.SingleMode, 0, true); r.continuation = false; r.term.SetPrompt(NormalPrompt); r.previous = \"\"; r.term.Print(fmt.Sprintf#0) -> nil",
-		"[r.continuation && line == \"\" && toCompile != \"\" && err != nil && !(strings.Contains(errText, \"unexpected EOF while parsing\")) && strings.Contains(errText, \"EOF while scanning triple-quoted string literal\") && !(len(stripped) > 0 && stripped[0] == '#')] vm.PrintExpr = r.term.Print; defer(func() { vm.PrintExpr = oldPrintExpr }()); Compile(toCompile + \"\\n\", r.prog, py.SingleMode, 0, true); r.continuation = true; r.previous += string(line) + \"\\n\"; r.term.SetPrompt(ContinuationPrompt) -> nil",
-		"[r.continuation && line == \"\" && toCompile != \"\" && err != nil && !(strings.Contains(errText, \"unexpected EOF while parsing\")) && strings.Contains(errText, \"EOF while scanning triple-quoted string literal\") && len(stripped) > 0 && stripped[0] == '#'] vm.PrintExpr = r.term.Print; defer(func() { vm.PrintExpr = oldPrintExpr }()); Compile(toCompile + \"\\n\", r.prog, py.SingleMode, 0, true) -> nil",
-		"[r.continuation && line == \"\" && toCompile != \"\" && err != nil && strings.Contains(errText, \"unexpected EOF while parsing\") && !(len(stripped) > 0 && stripped[0] == '#')] vm.PrintExpr = r.term.Print; defer(func() { vm.PrintExpr = oldPrintExpr }()); Compile(toCompile + \"\\n\", r.prog, py.SingleMode, 0, true); r.continuation = true; r.previous += string(line) + \"\\n\"; r.term.SetPrompt(ContinuationPrompt) -> nil",
-		"[r.continuation && line == \"\" && toCompile != \"\" && err != nil && strings.Contains(errText, \"unexpected EOF while parsing\") && len(stripped) > 0 && stripped[0] == '#'] vm.PrintExpr = r.term.Print; defer(func() { vm.PrintExpr = oldPrintExpr }()); Compile(toCompile + \"\\n\", r.prog, py.SingleMode, 0, true) -> nil",
-		"[r.continuation && line == \"\" && toCompile != \"\" && err == nil && !(py.IsException(py.SystemExit, err))] vm.PrintExpr = r.term.Print; defer(func() { vm.PrintExpr = oldPrintExpr }()); Compile(toCompile + \"\\n\", r.prog, py.SingleMode, 0, true); r.continuation = false; r.term.SetPrompt(NormalPrompt); r.previous = \"\"; r.Context.RunCode(dyn:py.Compile#0, r.Module.Globals, r.Module.Globals, nil); TracebackDump(err!) -> nil",
-		"[r.continuation && line == \"\" && toCompile != \"\" && err == nil && py.IsException(py.SystemExit, err)] vm.PrintExpr = r.term.Print; defer(func() { vm.PrintExpr = oldPrintExpr }()); Compile(toCompile + \"\\n\", r.prog, py.SingleMode, 0, true); r.continuation = false; r.term.SetPrompt(NormalPrompt); r.previous = \"\"; r.Context.RunCode(dyn:py.Compile#0, r.Module.Globals, r.Module.Globals, nil) -> err!",
-		"[r.continuation && line == \"\" && toCompile != \"\" && err == nil] vm.PrintExpr = r.term.Print; defer(func() { vm.PrintExpr = oldPrintExpr }()); Compile(toCompile + \"\\n\", r.prog, py.SingleMode, 0, true); r.continuation = false; r.term.SetPrompt(NormalPrompt); r.previous = \"\"; r.Context.RunCode(dyn:py.Compile#0, r.Module.Globals, r.Module.Globals, nil) -> nil",
-		"[r.continuation && line == \"\" && toCompile == \"\"] vm.PrintExpr = r.term.Print; defer(func() { vm.PrintExpr = oldPrintExpr }()) -> nil",
+		"[!(strings.Contains(errText, \"EOF while scanning triple-quoted string literal\")) && !(strings.Contains(errText, \"unexpected EOF while parsing\")) && err != nil && line == \"\" && r.continuation && toCompile != \"\"] vm.PrintExpr = r.term.Print; defer(func() { vm.PrintExpr = oldPrintExpr }()); Compile(toCompile + \"\\n\", r.prog, py.SingleMode, 0, true); r.continuation = false; r.term.SetPrompt(NormalPrompt); r.previous = \"\"; r.term.Print(fmt.Sprintf#0) -> nil",
+		"[!(strings.Contains(errText, \"unexpected EOF while parsing\")) && err != nil && len(stripped) > 0 && stripped[0] == '#' && line == \"\" && r.continuation && strings.Contains(errText, \"EOF while scanning triple-quoted string literal\") && toCompile != \"\"] vm.PrintExpr = r.term.Print; defer(func() { vm.PrintExpr = oldPrintExpr }()); Compile(toCompile + \"\\n\", r.prog, py.SingleMode, 0, true) -> nil",
+		"[err != nil && len(stripped) > 0 && stripped[0] == '#' && line == \"\" && r.continuation && strings.Contains(errText, \"unexpected EOF while parsing\") && toCompile != \"\"] vm.PrintExpr = r.term.Print; defer(func() { vm.PrintExpr = oldPrintExpr }()); Compile(toCompile + \"\\n\", r.prog, py.SingleMode, 0, true) -> nil",
+		"[err == nil && line == \"\" && py.IsException(py.SystemExit, err) && r.continuation && toCompile != \"\"] vm.PrintExpr = r.term.Print; defer(func() { vm.PrintExpr = oldPrintExpr }()); Compile(toCompile + \"\\n\", r.prog, py.SingleMode, 0, true); r.continuation = false; r.term.SetPrompt(NormalPrompt); r.previous = \"\"; r.Context.RunCode(dyn:py.Compile#0, r.Module.Globals, r.Module.Globals, nil) -> err!",
+		"[err == nil && line == \"\" && r.continuation && toCompile != \"\"] vm.PrintExpr = r.term.Print; defer(func() { vm.PrintExpr = oldPrintExpr }()); Compile(toCompile + \"\\n\", r.prog, py.SingleMode, 0, true); r.continuation = false; r.term.SetPrompt(NormalPrompt); r.previous = \"\"; r.Context.RunCode(dyn:py.Compile#0, r.Module.Globals, r.Module.Globals, nil) -> nil",
+		"[line != \"\" && r.continuation] vm.PrintExpr = r.term.Print; defer(func() { vm.PrintExpr = oldPrintExpr }()); r.previous += string(line) + \"\\n\" -> nil",
+		"[line == \"\" && r.continuation && toCompile == \"\"] vm.PrintExpr = r.term.Print; defer(func() { vm.PrintExpr = oldPrintExpr }()) -> nil",
 	}
 	// block analysis order: for a class block the sets handed to children are copied from bound/global BEFORE the block's own names are analysed (class bindings, including a `global` in the class body, are not visible in methods); for other blocks after; children are analysed on those sets; cells computed for function blocks, __class__ dropped for class blocks; symbols updated; free propagated [symtable.c analyze_block]  []
 	pathSpec["symtable|SymTable.AnalyzeBlock"] = []string{
-		"[st.Type != ClassBlock && st.Type != FunctionBlock] LOOP(range st.Symbols){[] st.AnalyzeName(make#2, loop:name@st.Symbols, st.Symbols[*], bound, make#1, free, global) }; make#5.Update(bound); make#3.Update(global); LOOP(range st.Children){[!(entry.Free) && !(entry.ChildFree)] st.Children[*].AnalyzeChildBlock(make#5, make#4, make#3, make#6)  | [!(entry.Free) && entry.ChildFree] st.Children[*].AnalyzeChildBlock(make#5, make#4, make#3, make#6)  | [entry.Free] st.Children[*].AnalyzeChildBlock(make#5, make#4, make#3, make#6) }; make#4.Update(make#6); st.Symbols.Update(make#2, bound, make#4, st.Type == ClassBlock); free.Update(make#4)",
-		"[st.Type == ClassBlock] make#3.Update(global); make#5.Update(bound); LOOP(range st.Symbols){[] st.AnalyzeName(make#2, loop:name@st.Symbols, st.Symbols[*], bound, make#1, free, global) }; make#5.Add(\"__class__\"); LOOP(range st.Children){[!(entry.Free) && !(entry.ChildFree)] st.Children[*].AnalyzeChildBlock(make#5, make#4, make#3, make#6)  | [!(entry.Free) && entry.ChildFree] st.Children[*].AnalyzeChildBlock(make#5, make#4, make#3, make#6)  | [entry.Free] st.Children[*].AnalyzeChildBlock(make#5, make#4, make#3, make#6) }; make#4.Update(make#6); st.DropClassFree(make#4); st.Symbols.Update(make#2, bound, make#4, st.Type == ClassBlock); free.Update(make#4)",
-		"[st.Type == FunctionBlock] LOOP(range st.Symbols){[] st.AnalyzeName(make#2, loop:name@st.Symbols, st.Symbols[*], bound, make#1, free, global) }; make#5.Update(make#1); make#5.Update(bound); make#3.Update(global); LOOP(range st.Children){[!(entry.Free) && !(entry.ChildFree)] st.Children[*].AnalyzeChildBlock(make#5, make#4, make#3, make#6)  | [!(entry.Free) && entry.ChildFree] st.Children[*].AnalyzeChildBlock(make#5, make#4, make#3, make#6)  | [entry.Free] st.Children[*].AnalyzeChildBlock(make#5, make#4, make#3, make#6) }; make#4.Update(make#6); AnalyzeCells(make#2, make#4); st.Symbols.Update(make#2, bound, make#4, st.Type == ClassBlock); free.Update(make#4)",
+		"[st.Type != ClassBlock && st.Type != FunctionBlock] LOOP(range st.Symbols){[] st.AnalyzeName(make#2, idx(st.Symbols), st.Symbols[*], bound, make#1, free, global) }; make#5.Update(bound); make#3.Update(global); LOOP(range st.Children){[!(entry.ChildFree) && !(entry.Free)] st.Children[*].AnalyzeChildBlock(make#5, make#4, make#3, make#6)  | [!(entry.Free) && entry.ChildFree] st.Children[*].AnalyzeChildBlock(make#5, make#4, make#3, make#6)  | [entry.Free] st.Children[*].AnalyzeChildBlock(make#5, make#4, make#3, make#6) }; make#4.Update(make#6); st.Symbols.Update(make#2, bound, make#4, st.Type == ClassBlock); free.Update(make#4)",
+		"[st.Type == ClassBlock] make#3.Update(global); make#5.Update(bound); LOOP(range st.Symbols){[] st.AnalyzeName(make#2, idx(st.Symbols), st.Symbols[*], bound, make#1, free, global) }; make#5.Add(\"__class__\"); LOOP(range st.Children){[!(entry.ChildFree) && !(entry.Free)] st.Children[*].AnalyzeChildBlock(make#5, make#4, make#3, make#6)  | [!(entry.Free) && entry.ChildFree] st.Children[*].AnalyzeChildBlock(make#5, make#4, make#3, make#6)  | [entry.Free] st.Children[*].AnalyzeChildBlock(make#5, make#4, make#3, make#6) }; make#4.Update(make#6); st.DropClassFree(make#4); st.Symbols.Update(make#2, bound, make#4, st.Type == ClassBlock); free.Update(make#4)",
+		"[st.Type == FunctionBlock] LOOP(range st.Symbols){[] st.AnalyzeName(make#2, idx(st.Symbols), st.Symbols[*], bound, make#1, free, global) }; make#5.Update(make#1); make#5.Update(bound); make#3.Update(global); LOOP(range st.Children){[!(entry.ChildFree) && !(entry.Free)] st.Children[*].AnalyzeChildBlock(make#5, make#4, make#3, make#6)  | [!(entry.Free) && entry.ChildFree] st.Children[*].AnalyzeChildBlock(make#5, make#4, make#3, make#6)  | [entry.Free] st.Children[*].AnalyzeChildBlock(make#5, make#4, make#3, make#6) }; make#4.Update(make#6); AnalyzeCells(make#2, make#4); st.Symbols.Update(make#2, bound, make#4, st.Type == ClassBlock); free.Update(make#4)",
 	}
 	// sequence unpacking (UNPACK_SEQUENCE / UNPACK_EX): the first argcnt items are stored downwards from the top so that the leftmost target is popped first; the starred list takes the rest; the after-star items are taken from the end of that list in the same downward order [ceval.c unpack_iterable]  []
 	pathSpec["vm|unpack_iterable"] = []string{
+		"[!(py.IsException(py.StopIteration, err)) && argcntafter == -1 && err == nil] Iter(v); LOOP(for i = 0; i < argcnt; i++){[!(py.IsException(py.StopIteration, err)) && err != nil] Next(py.Iter#0); IsException(py.StopIteration, err!) return | [err != nil && py.IsException(py.StopIteration, err)] Next(py.Iter#0); IsException(py.StopIteration, err!); ExceptionNewf(py.ValueError, \"need more than %d value(s) to unpack\", loop:i) return | [err == nil] Next(py.Iter#0) }; Next(py.Iter#0); IsException(py.StopIteration, err!) -> err!",
+		"[!(py.IsException(py.StopIteration, err)) && err == nil] Iter(v); Next(py.Iter#0); IsException(py.StopIteration, err!) -> err!",
+		"[argcntafter != -1 && argcntafter - len(l.Items) <= 0 && err == nil] Iter(v); LOOP(for i = 0; i < argcnt; i++){[!(py.IsException(py.StopIteration, err)) && err != nil] Next(py.Iter#0); IsException(py.StopIteration, err!) return | [err != nil && py.IsException(py.StopIteration, err)] Next(py.Iter#0); IsException(py.StopIteration, err!); ExceptionNewf(py.ValueError, \"need more than %d value(s) to unpack\", loop:i) return | [err == nil] Next(py.Iter#0) }; SequenceList(py.Iter#0); py.SequenceList#0.Len(); LOOP(for j := argcntafter; j > 0; j--){[err != nil] py.SequenceList#0.M__getitem__(len(l.Items) - loop:j) return | [err == nil] py.SequenceList#0.M__getitem__(len(l.Items) - loop:j) }; py.SequenceList#0.Resize(-argcntafter + len(l.Items)) -> nil",
+		"[argcntafter != -1 && argcntafter - len(l.Items) <= 0 && err == nil] Iter(v); LOOP(for i = 0; i < argcnt; i++){[!(py.IsException(py.StopIteration, err)) && err != nil] Next(py.Iter#0); IsException(py.StopIteration, err!) return | [err != nil && py.IsException(py.StopIteration, err)] Next(py.Iter#0); IsException(py.StopIteration, err!); ExceptionNewf(py.ValueError, \"need more than %d value(s) to unpack\", loop:i) return | [err == nil] Next(py.Iter#0) }; SequenceList(py.Iter#0); py.SequenceList#0.Len(); py.SequenceList#0.M__getitem__(len(l.Items) - loop:j) -> err!",
+		"[argcntafter != -1 && argcntafter - len(l.Items) >= 1 && err == nil] Iter(v); LOOP(for i = 0; i < argcnt; i++){[!(py.IsException(py.StopIteration, err)) && err != nil] Next(py.Iter#0); IsException(py.StopIteration, err!) return | [err != nil && py.IsException(py.StopIteration, err)] Next(py.Iter#0); IsException(py.StopIteration, err!); ExceptionNewf(py.ValueError, \"need more than %d value(s) to unpack\", loop:i) return | [err == nil] Next(py.Iter#0) }; SequenceList(py.Iter#0); py.SequenceList#0.Len(); ExceptionNewf(py.ValueError, \"need more than %d values to unpack\", argcnt + len(l.Items)) -> err!",
+		"[argcntafter != -1 && err == nil] Iter(v); LOOP(for i = 0; i < argcnt; i++){[!(py.IsException(py.StopIteration, err)) && err != nil] Next(py.Iter#0); IsException(py.StopIteration, err!) return | [err != nil && py.IsException(py.StopIteration, err)] Next(py.Iter#0); IsException(py.StopIteration, err!); ExceptionNewf(py.ValueError, \"need more than %d value(s) to unpack\", loop:i) return | [err == nil] Next(py.Iter#0) }; SequenceList(py.Iter#0) -> err!",
+		"[argcntafter == -1 && err == nil && py.IsException(py.StopIteration, err)] Iter(v); LOOP(for i = 0; i < argcnt; i++){[!(py.IsException(py.StopIteration, err)) && err != nil] Next(py.Iter#0); IsException(py.StopIteration, err!) return | [err != nil && py.IsException(py.StopIteration, err)] Next(py.Iter#0); IsException(py.StopIteration, err!); ExceptionNewf(py.ValueError, \"need more than %d value(s) to unpack\", loop:i) return | [err == nil] Next(py.Iter#0) }; Next(py.Iter#0); IsException(py.StopIteration, err!) -> nil",
+		"[argcntafter == -1 && err == nil] Iter(v); LOOP(for i = 0; i < argcnt; i++){[!(py.IsException(py.StopIteration, err)) && err != nil] Next(py.Iter#0); IsException(py.StopIteration, err!) return | [err != nil && py.IsException(py.StopIteration, err)] Next(py.Iter#0); IsException(py.StopIteration, err!); ExceptionNewf(py.ValueError, \"need more than %d value(s) to unpack\", loop:i) return | [err == nil] Next(py.Iter#0) }; Next(py.Iter#0); ExceptionNewf(py.ValueError, \"too many values to unpack (expected %d)\", argcnt) -> err!",
 		"[err != nil] Iter(v) -> err!",
-		"[err == nil && !(py.IsException(py.StopIteration, err))] Iter(v); Next(py.Iter#0); IsException(py.StopIteration, err!) -> err!",
-		"[err == nil && argcntafter != -1 && ll < argcntafter] Iter(v); LOOP(for i = 0; i < argcnt; i++){[err != nil && !(py.IsException(py.StopIteration, err))] Next(py.Iter#0); IsException(py.StopIteration, err!) return | [err != nil && py.IsException(py.StopIteration, err)] Next(py.Iter#0); IsException(py.StopIteration, err!); ExceptionNewf(py.ValueError, \"need more than %d value(s) to unpack\", loop:i) return | [err == nil] Next(py.Iter#0) }; SequenceList(py.Iter#0); py.SequenceList#0.Len(); ExceptionNewf(py.ValueError, \"need more than %d values to unpack\", argcnt + len(l.Items)) -> err!",
-		"[err == nil && argcntafter != -1 && ll >= argcntafter] Iter(v); LOOP(for i = 0; i < argcnt; i++){[err != nil && !(py.IsException(py.StopIteration, err))] Next(py.Iter#0); IsException(py.StopIteration, err!) return | [err != nil && py.IsException(py.StopIteration, err)] Next(py.Iter#0); IsException(py.StopIteration, err!); ExceptionNewf(py.ValueError, \"need more than %d value(s) to unpack\", loop:i) return | [err == nil] Next(py.Iter#0) }; SequenceList(py.Iter#0); py.SequenceList#0.Len(); LOOP(for j := argcntafter; j > 0; j--){[err != nil] py.SequenceList#0.M__getitem__(len(l.Items) - loop:j) return | [err == nil] py.SequenceList#0.M__getitem__(len(l.Items) - loop:j) }; py.SequenceList#0.Resize(-argcntafter + len(l.Items)) -> nil",
-		"[err == nil && argcntafter != -1 && ll >= argcntafter] Iter(v); LOOP(for i = 0; i < argcnt; i++){[err != nil && !(py.IsException(py.StopIteration, err))] Next(py.Iter#0); IsException(py.StopIteration, err!) return | [err != nil && py.IsException(py.StopIteration, err)] Next(py.Iter#0); IsException(py.StopIteration, err!); ExceptionNewf(py.ValueError, \"need more than %d value(s) to unpack\", loop:i) return | [err == nil] Next(py.Iter#0) }; SequenceList(py.Iter#0); py.SequenceList#0.Len(); py.SequenceList#0.M__getitem__(len(l.Items) - loop:j) -> err!",
-		"[err == nil && argcntafter != -1] Iter(v); LOOP(for i = 0; i < argcnt; i++){[err != nil && !(py.IsException(py.StopIteration, err))] Next(py.Iter#0); IsException(py.StopIteration, err!) return | [err != nil && py.IsException(py.StopIteration, err)] Next(py.Iter#0); IsException(py.StopIteration, err!); ExceptionNewf(py.ValueError, \"need more than %d value(s) to unpack\", loop:i) return | [err == nil] Next(py.Iter#0) }; SequenceList(py.Iter#0) -> err!",
-		"[err == nil && argcntafter == -1 && !(py.IsException(py.StopIteration, err))] Iter(v); LOOP(for i = 0; i < argcnt; i++){[err != nil && !(py.IsException(py.StopIteration, err))] Next(py.Iter#0); IsException(py.StopIteration, err!) return | [err != nil && py.IsException(py.StopIteration, err)] Next(py.Iter#0); IsException(py.StopIteration, err!); ExceptionNewf(py.ValueError, \"need more than %d value(s) to unpack\", loop:i) return | [err == nil] Next(py.Iter#0) }; Next(py.Iter#0); IsException(py.StopIteration, err!) -> err!",
-		"[err == nil && argcntafter == -1 && py.IsException(py.StopIteration, err)] Iter(v); LOOP(for i = 0; i < argcnt; i++){[err != nil && !(py.IsException(py.StopIteration, err))] Next(py.Iter#0); IsException(py.StopIteration, err!) return | [err != nil && py.IsException(py.StopIteration, err)] Next(py.Iter#0); IsException(py.StopIteration, err!); ExceptionNewf(py.ValueError, \"need more than %d value(s) to unpack\", loop:i) return | [err == nil] Next(py.Iter#0) }; Next(py.Iter#0); IsException(py.StopIteration, err!) -> nil",
-		"[err == nil && argcntafter == -1] Iter(v); LOOP(for i = 0; i < argcnt; i++){[err != nil && !(py.IsException(py.StopIteration, err))] Next(py.Iter#0); IsException(py.StopIteration, err!) return | [err != nil && py.IsException(py.StopIteration, err)] Next(py.Iter#0); IsException(py.StopIteration, err!); ExceptionNewf(py.ValueError, \"need more than %d value(s) to unpack\", loop:i) return | [err == nil] Next(py.Iter#0) }; Next(py.Iter#0); ExceptionNewf(py.ValueError, \"too many values to unpack (expected %d)\", argcnt) -> err!",
 		"[err == nil && py.IsException(py.StopIteration, err)] Iter(v); Next(py.Iter#0); IsException(py.StopIteration, err!); ExceptionNewf(py.ValueError, \"need more than %d value(s) to unpack\", loop:i) -> err!",
 	}
 	// with statement entry: __exit__ is looked up and pushed, __enter__ is looked up and called, and only after it returned without error is the finally block pushed and the result pushed — an exception from __enter__ must not run __exit__ [ceval.c SETUP_WITH]  []
@@ -85,31 +85,31 @@ func init() {
 	}
 	// the implicit `return None` is omitted only when the very last element of the instruction stream is a RETURN_VALUE: a trailing label is a jump target that needs an instruction after it  []
 	pathSpec["compile|Instructions.EndsWithReturn"] = []string{
-		"[len(is) != 0 && !(last.(*Op))]  -> false",
-		"[len(is) != 0 && last.(*Op)]  -> op.Op == vm.RETURN_VALUE",
+		"[!(last.(*Op)) && len(is) != 0]  -> false",
+		"[last.(*Op) && len(is) != 0]  -> op.Op == vm.RETURN_VALUE",
 		"[len(is) == 0]  -> false",
 	}
 	// incomplete-input decision (lexer half): a parse error without a message of its own is reported as 'unexpected EOF while parsing' exactly when the input ran out (x.eof), otherwise as 'invalid syntax' — the REPL continues a statement on the former  []
 	pathSpec["parser|yyLex.ErrorReturn"] = []string{
+		"[!(x.eof) && x.error && x.errorString == \"\"] x.errorString = \"invalid syntax\"; ExceptionNewf(py.SyntaxError, \"%s\", x.errorString) -> err!",
 		"[!(x.error)]  -> nil",
+		"[x.eof && x.error && x.errorString == \"\"] x.errorString = \"unexpected EOF while parsing\"; ExceptionNewf(py.SyntaxError, \"%s\", x.errorString) -> err!",
 		"[x.error && x.errorString != \"\"] ExceptionNewf(py.SyntaxError, \"%s\", x.errorString) -> err!",
-		"[x.error && x.errorString == \"\" && !(x.eof)] x.errorString = \"invalid syntax\"; ExceptionNewf(py.SyntaxError, \"%s\", x.errorString) -> err!",
-		"[x.error && x.errorString == \"\" && x.eof] x.errorString = \"unexpected EOF while parsing\"; ExceptionNewf(py.SyntaxError, \"%s\", x.errorString) -> err!",
 	}
 	// MRO lookup: every call walks the current MRO of the type and returns the first dictionary hit; nothing is memoised across calls (a cache would need invalidation in every subclass)  []
 	pathSpec["py|Type.Lookup"] = []string{
-		"[mro != nil] LOOP(range mro){[!(has(base.Dict[name]))]   | [has(base.Dict[name])]  break} -> after-loop",
+		"[mro != nil] LOOP(range mro){[!(has(base.Dict[name]))]   | [has(base.Dict[name])]  break} -> after-loop:res",
 		"[mro == nil]  -> nil",
 	}
 	// range equality compares the sequences the ranges denote: different lengths differ; empty ranges are equal; then the first items must agree; a range of one item needs nothing more; otherwise the steps must agree [rangeobject.c range_equals]  []
 	pathSpec["py|Range.M__eq__"] = []string{
 		"[!(other.(*Range))]  -> NotImplemented, nil",
-		"[other.(*Range) && a.Length != b.Length]  -> False, nil",
-		"[other.(*Range) && a.Length == b.Length && a.Length == 0]  -> True, nil",
-		"[other.(*Range) && a.Length == b.Length && a.Start != b.Start]  -> False, nil",
-		"[other.(*Range) && a.Length == b.Length && a.Start == b.Start && a.Length == 1]  -> True, nil",
-		"[other.(*Range) && a.Length == b.Length && a.Start == b.Start && a.Step != b.Step]  -> False, nil",
-		"[other.(*Range) && a.Length == b.Length && a.Start == b.Start && a.Step == b.Step]  -> True, nil",
+		"[a.Length != 0 && a.Length != 1 && a.Length - other.Length == 0 && a.Start - other.Start == 0 && a.Step - other.Step != 0 && other.(*Range)]  -> False, nil",
+		"[a.Length != 0 && a.Length != 1 && a.Length - other.Length == 0 && a.Start - other.Start == 0 && a.Step - other.Step == 0 && other.(*Range)]  -> True, nil",
+		"[a.Length != 0 && a.Length - other.Length == 0 && a.Start - other.Start != 0 && other.(*Range)]  -> False, nil",
+		"[a.Length - other.Length != 0 && other.(*Range)]  -> False, nil",
+		"[a.Length - other.Length == 0 && a.Length == 0 && other.(*Range)]  -> True, nil",
+		"[a.Length - other.Length == 0 && a.Length == 1 && a.Start - other.Start == 0 && other.(*Range)]  -> True, nil",
 	}
 	// name lookup in a namespace block: locals, then globals, then builtins, NameError last [ceval.c]  []
 	pathSpec["vm|do_LOAD_NAME"] = []string{
@@ -165,85 +165,88 @@ func init() {
 	}
 	// LOAD_NAME order: the frame's locals, then its globals, then the builtins [ceval.c LOAD_NAME]  []
 	pathSpec["py|Frame.Lookup"] = []string{
-		"[!(has(f.Locals[name])) && !(has(f.Globals[name])) && !(has(f.Builtins[name]))]  -> nil, false",
-		"[!(has(f.Locals[name])) && !(has(f.Globals[name])) && has(f.Builtins[name])] ",
+		"[!(has(f.Builtins[name])) && !(has(f.Globals[name])) && !(has(f.Locals[name]))]  -> nil, false",
+		"[!(has(f.Globals[name])) && !(has(f.Locals[name])) && has(f.Builtins[name])] ",
 		"[!(has(f.Locals[name])) && has(f.Globals[name])] ",
 		"[has(f.Locals[name])] ",
 	}
 	// LOAD_GLOBAL order: the frame's globals, then the builtins [ceval.c LOAD_GLOBAL]  []
 	pathSpec["py|Frame.LookupGlobal"] = []string{
-		"[!(has(f.Globals[name])) && !(has(f.Builtins[name]))]  -> nil, false",
+		"[!(has(f.Builtins[name])) && !(has(f.Globals[name]))]  -> nil, false",
 		"[!(has(f.Globals[name])) && has(f.Builtins[name])] ",
 		"[has(f.Globals[name])] ",
 	}
 	// symbol-table update after scope analysis: scope bits are recorded; in a class block a name that is free in a method and bound OR declared global in the class gets DefFreeClass; a free name unknown to the block is added as free [symtable.c update_symbols] — the compiler's closure construction relies on it  []
 	pathSpec["symtable|Symbols.Update"] = []string{
-		"[] LOOP(range symbols){[]  }; LOOP(range free){[!(has(symbols[name])) && !(bound.Contains(name))]   | [!(has(symbols[name])) && bound.Contains(name)]   | [has(symbols[name]) && !(classflag)]   | [has(symbols[name]) && classflag && (symbol.Flags & (DefBound | DefGlobal)) != 0]   | [has(symbols[name]) && classflag && (symbol.Flags & (DefBound | DefGlobal)) == 0]  }",
+		"[] LOOP(range symbols){[]  }; LOOP(range free){[!(bound.Contains(name)) && !(has(symbols[name]))]   | [!(classflag) && has(symbols[name])]   | [!(has(symbols[name])) && bound.Contains(name)]   | [(symbol.Flags & (DefBound | DefGlobal)) != 0 && classflag && has(symbols[name])]   | [(symbol.Flags & (DefBound | DefGlobal)) == 0 && classflag && has(symbols[name])]  }",
 	}
 	// one layout pass: each instruction gets its position, jumps are resolved (possibly widening the instruction) and only then the address advances by the instruction's size  []
 	pathSpec["compile|Instructions.Pass"] = []string{
-		"[] LOOP(range is){[pass <= 0] is[*].SetPos(loop:i@is, loop:addr); is[*].Size()  | [pass > 0 && !(instr.(Resolver))] is[*].SetPos(loop:i@is, loop:addr); is[*].Size()  | [pass > 0 && instr.(Resolver)] is[*].SetPos(loop:i@is, loop:addr); is[*].Resolve(); is[*].Size() } -> after-loop",
+		"[] LOOP(range is){[!(instr.(Resolver)) && pass >= 1] is[*].SetPos(idx(is), loop:addr); is[*].Size()  | [instr.(Resolver) && pass >= 1] is[*].SetPos(idx(is), loop:addr); is[*].Resolve(); is[*].Size()  | [pass <= 0] is[*].SetPos(idx(is), loop:addr); is[*].Size() } -> after-loop:changed",
 	}
 	// repr/ascii escaping per character class: control characters as \t \n \r \xHH; in repr mode printable ASCII with backslash and the chosen quote escaped; in ascii mode ASCII passes through untouched (the text is an already escaped repr); Latin-1, BMP and astral characters printable-or-escaped by width  []
 	pathSpec["py|StringEscape"] = []string{
-		"[!(strings.ContainsRune(s, '\\'')) && !(ascii)] ContainsRune(a, 39); zero.WriteRune(39); LOOP(range s){[c < 0x20 && c != '\\t' && c != '\\n' && c != '\\r'] Fprintf(zero, `\\x%02x`, a[*])  | [c < 0x20 && c == '\\n'] zero.WriteString(`\\n`)  | [c < 0x20 && c == '\\r'] zero.WriteString(`\\r`)  | [c < 0x20 && c == '\\t'] zero.WriteString(`\\t`)  | [c >= 0x20 && c < 0x7F && c != '\\\\' && c != '\\''] zero.WriteRune(a[*])  | [c >= 0x20 && c < 0x7F && c == '\\''] zero.WriteRune(92); zero.WriteRune(a[*])  | [c >= 0x20 && c < 0x7F && c == '\\\\'] zero.WriteRune(92); zero.WriteRune(a[*])  | [c >= 0x20 && c >= 0x7F && c < 0x100 && !(strconv.IsPrint(c))] IsPrint(a[*]); Fprintf(zero, \"\\\\x%02x\", a[*])  | [c >= 0x20 && c >= 0x7F && c < 0x100 && strconv.IsPrint(c)] IsPrint(a[*]); zero.WriteRune(a[*])  | [c >= 0x20 && c >= 0x7F && c >= 0x100 && c < 0x10000 && !(strconv.IsPrint(c))] IsPrint(a[*]); Fprintf(zero, \"\\\\u%04x\", a[*])  | [c >= 0x20 && c >= 0x7F && c >= 0x100 && c < 0x10000 && strconv.IsPrint(c)] IsPrint(a[*]); zero.WriteRune(a[*])  | [c >= 0x20 && c >= 0x7F && c >= 0x100 && c >= 0x10000 && !(strconv.IsPrint(c))] IsPrint(a[*]); Fprintf(zero, \"\\\\U%08x\", a[*])  | [c >= 0x20 && c >= 0x7F && c >= 0x100 && c >= 0x10000 && strconv.IsPrint(c)] IsPrint(a[*]); zero.WriteRune(a[*]) }; zero.WriteRune(39); zero.String() -> (*bytes.Buffer).String#0",
-		"[!(strings.ContainsRune(s, '\\'')) && ascii] ContainsRune(a, 39); LOOP(range s){[c < 0x20 && c != '\\t' && c != '\\n' && c != '\\r'] Fprintf(zero, `\\x%02x`, a[*])  | [c < 0x20 && c == '\\n'] zero.WriteString(`\\n`)  | [c < 0x20 && c == '\\r'] zero.WriteString(`\\r`)  | [c < 0x20 && c == '\\t'] zero.WriteString(`\\t`)  | [c >= 0x20 && c < 0x100 && c < 0x7F] zero.WriteRune(a[*])  | [c >= 0x20 && c < 0x100 && c >= 0x7F] Fprintf(zero, \"\\\\x%02x\", a[*])  | [c >= 0x20 && c >= 0x100 && c < 0x10000] Fprintf(zero, \"\\\\u%04x\", a[*])  | [c >= 0x20 && c >= 0x100 && c >= 0x10000] Fprintf(zero, \"\\\\U%08x\", a[*]) }; zero.String() -> (*bytes.Buffer).String#0",
-		"[strings.ContainsRune(s, '\\'') && !(strings.ContainsRune(s, '\"')) && !(ascii)] ContainsRune(a, 39); ContainsRune(a, 34); zero.WriteRune(34); LOOP(range s){[c < 0x20 && c != '\\t' && c != '\\n' && c != '\\r'] Fprintf(zero, `\\x%02x`, a[*])  | [c < 0x20 && c == '\\n'] zero.WriteString(`\\n`)  | [c < 0x20 && c == '\\r'] zero.WriteString(`\\r`)  | [c < 0x20 && c == '\\t'] zero.WriteString(`\\t`)  | [c >= 0x20 && c < 0x7F && c != '\\\\' && c != '\"'] zero.WriteRune(a[*])  | [c >= 0x20 && c < 0x7F && c == '\"'] zero.WriteRune(92); zero.WriteRune(a[*])  | [c >= 0x20 && c < 0x7F && c == '\\\\'] zero.WriteRune(92); zero.WriteRune(a[*])  | [c >= 0x20 && c >= 0x7F && c < 0x100 && !(strconv.IsPrint(c))] IsPrint(a[*]); Fprintf(zero, \"\\\\x%02x\", a[*])  | [c >= 0x20 && c >= 0x7F && c < 0x100 && strconv.IsPrint(c)] IsPrint(a[*]); zero.WriteRune(a[*])  | [c >= 0x20 && c >= 0x7F && c >= 0x100 && c < 0x10000 && !(strconv.IsPrint(c))] IsPrint(a[*]); Fprintf(zero, \"\\\\u%04x\", a[*])  | [c >= 0x20 && c >= 0x7F && c >= 0x100 && c < 0x10000 && strconv.IsPrint(c)] IsPrint(a[*]); zero.WriteRune(a[*])  | [c >= 0x20 && c >= 0x7F && c >= 0x100 && c >= 0x10000 && !(strconv.IsPrint(c))] IsPrint(a[*]); Fprintf(zero, \"\\\\U%08x\", a[*])  | [c >= 0x20 && c >= 0x7F && c >= 0x100 && c >= 0x10000 && strconv.IsPrint(c)] IsPrint(a[*]); zero.WriteRune(a[*]) }; zero.WriteRune(34); zero.String() -> (*bytes.Buffer).String#0",
-		"[strings.ContainsRune(s, '\\'') && !(strings.ContainsRune(s, '\"')) && ascii] ContainsRune(a, 39); ContainsRune(a, 34); LOOP(range s){[c < 0x20 && c != '\\t' && c != '\\n' && c != '\\r'] Fprintf(zero, `\\x%02x`, a[*])  | [c < 0x20 && c == '\\n'] zero.WriteString(`\\n`)  | [c < 0x20 && c == '\\r'] zero.WriteString(`\\r`)  | [c < 0x20 && c == '\\t'] zero.WriteString(`\\t`)  | [c >= 0x20 && c < 0x100 && c < 0x7F] zero.WriteRune(a[*])  | [c >= 0x20 && c < 0x100 && c >= 0x7F] Fprintf(zero, \"\\\\x%02x\", a[*])  | [c >= 0x20 && c >= 0x100 && c < 0x10000] Fprintf(zero, \"\\\\u%04x\", a[*])  | [c >= 0x20 && c >= 0x100 && c >= 0x10000] Fprintf(zero, \"\\\\U%08x\", a[*]) }; zero.String() -> (*bytes.Buffer).String#0",
-		"[strings.ContainsRune(s, '\\'') && strings.ContainsRune(s, '\"') && !(ascii)] ContainsRune(a, 39); ContainsRune(a, 34); zero.WriteRune(39); LOOP(range s){[c < 0x20 && c != '\\t' && c != '\\n' && c != '\\r'] Fprintf(zero, `\\x%02x`, a[*])  | [c < 0x20 && c == '\\n'] zero.WriteString(`\\n`)  | [c < 0x20 && c == '\\r'] zero.WriteString(`\\r`)  | [c < 0x20 && c == '\\t'] zero.WriteString(`\\t`)  | [c >= 0x20 && c < 0x7F && c != '\\\\' && c != '\\''] zero.WriteRune(a[*])  | [c >= 0x20 && c < 0x7F && c == '\\''] zero.WriteRune(92); zero.WriteRune(a[*])  | [c >= 0x20 && c < 0x7F && c == '\\\\'] zero.WriteRune(92); zero.WriteRune(a[*])  | [c >= 0x20 && c >= 0x7F && c < 0x100 && !(strconv.IsPrint(c))] IsPrint(a[*]); Fprintf(zero, \"\\\\x%02x\", a[*])  | [c >= 0x20 && c >= 0x7F && c < 0x100 && strconv.IsPrint(c)] IsPrint(a[*]); zero.WriteRune(a[*])  | [c >= 0x20 && c >= 0x7F && c >= 0x100 && c < 0x10000 && !(strconv.IsPrint(c))] IsPrint(a[*]); Fprintf(zero, \"\\\\u%04x\", a[*])  | [c >= 0x20 && c >= 0x7F && c >= 0x100 && c < 0x10000 && strconv.IsPrint(c)] IsPrint(a[*]); zero.WriteRune(a[*])  | [c >= 0x20 && c >= 0x7F && c >= 0x100 && c >= 0x10000 && !(strconv.IsPrint(c))] IsPrint(a[*]); Fprintf(zero, \"\\\\U%08x\", a[*])  | [c >= 0x20 && c >= 0x7F && c >= 0x100 && c >= 0x10000 && strconv.IsPrint(c)] IsPrint(a[*]); zero.WriteRune(a[*]) }; zero.WriteRune(39); zero.String() -> (*bytes.Buffer).String#0",
-		"[strings.ContainsRune(s, '\\'') && strings.ContainsRune(s, '\"') && ascii] ContainsRune(a, 39); ContainsRune(a, 34); LOOP(range s){[c < 0x20 && c != '\\t' && c != '\\n' && c != '\\r'] Fprintf(zero, `\\x%02x`, a[*])  | [c < 0x20 && c == '\\n'] zero.WriteString(`\\n`)  | [c < 0x20 && c == '\\r'] zero.WriteString(`\\r`)  | [c < 0x20 && c == '\\t'] zero.WriteString(`\\t`)  | [c >= 0x20 && c < 0x100 && c < 0x7F] zero.WriteRune(a[*])  | [c >= 0x20 && c < 0x100 && c >= 0x7F] Fprintf(zero, \"\\\\x%02x\", a[*])  | [c >= 0x20 && c >= 0x100 && c < 0x10000] Fprintf(zero, \"\\\\u%04x\", a[*])  | [c >= 0x20 && c >= 0x100 && c >= 0x10000] Fprintf(zero, \"\\\\U%08x\", a[*]) }; zero.String() -> (*bytes.Buffer).String#0",
+		"[!(ascii) && !(strings.ContainsRune(s, '\"')) && strings.ContainsRune(s, '\\'')] ContainsRune(a, 39); ContainsRune(a, 34); zero.WriteRune(34); LOOP(range s){[!(strconv.IsPrint(c)) && a[*] <= 255 && a[*] >= 127 && a[*] >= 32] IsPrint(a[*]); Fprintf(zero, \"\\\\x%02x\", a[*])  | [!(strconv.IsPrint(c)) && a[*] <= 65535 && a[*] >= 127 && a[*] >= 256 && a[*] >= 32] IsPrint(a[*]); Fprintf(zero, \"\\\\u%04x\", a[*])  | [!(strconv.IsPrint(c)) && a[*] >= 127 && a[*] >= 256 && a[*] >= 32 && a[*] >= 65536] IsPrint(a[*]); Fprintf(zero, \"\\\\U%08x\", a[*])  | [a[*] != 10 && a[*] != 13 && a[*] != 9 && a[*] <= 31] Fprintf(zero, `\\x%02x`, a[*])  | [a[*] != 34 && a[*] != 92 && a[*] <= 126 && a[*] >= 32] zero.WriteRune(a[*])  | [a[*] <= 126 && a[*] == 34 && a[*] >= 32] zero.WriteRune(92); zero.WriteRune(a[*])  | [a[*] <= 126 && a[*] == 92 && a[*] >= 32] zero.WriteRune(92); zero.WriteRune(a[*])  | [a[*] <= 255 && a[*] >= 127 && a[*] >= 32 && strconv.IsPrint(c)] IsPrint(a[*]); zero.WriteRune(a[*])  | [a[*] <= 31 && a[*] == 10] zero.WriteString(`\\n`)  | [a[*] <= 31 && a[*] == 13] zero.WriteString(`\\r`)  | [a[*] <= 31 && a[*] == 9] zero.WriteString(`\\t`)  | [a[*] <= 65535 && a[*] >= 127 && a[*] >= 256 && a[*] >= 32 && strconv.IsPrint(c)] IsPrint(a[*]); zero.WriteRune(a[*])  | [a[*] >= 127 && a[*] >= 256 && a[*] >= 32 && a[*] >= 65536 && strconv.IsPrint(c)] IsPrint(a[*]); zero.WriteRune(a[*]) }; zero.WriteRune(34); zero.String() -> (*bytes.Buffer).String#0",
+		"[!(ascii) && !(strings.ContainsRune(s, '\\''))] ContainsRune(a, 39); zero.WriteRune(39); LOOP(range s){[!(strconv.IsPrint(c)) && a[*] <= 255 && a[*] >= 127 && a[*] >= 32] IsPrint(a[*]); Fprintf(zero, \"\\\\x%02x\", a[*])  | [!(strconv.IsPrint(c)) && a[*] <= 65535 && a[*] >= 127 && a[*] >= 256 && a[*] >= 32] IsPrint(a[*]); Fprintf(zero, \"\\\\u%04x\", a[*])  | [!(strconv.IsPrint(c)) && a[*] >= 127 && a[*] >= 256 && a[*] >= 32 && a[*] >= 65536] IsPrint(a[*]); Fprintf(zero, \"\\\\U%08x\", a[*])  | [a[*] != 10 && a[*] != 13 && a[*] != 9 && a[*] <= 31] Fprintf(zero, `\\x%02x`, a[*])  | [a[*] != 39 && a[*] != 92 && a[*] <= 126 && a[*] >= 32] zero.WriteRune(a[*])  | [a[*] <= 126 && a[*] == 39 && a[*] >= 32] zero.WriteRune(92); zero.WriteRune(a[*])  | [a[*] <= 126 && a[*] == 92 && a[*] >= 32] zero.WriteRune(92); zero.WriteRune(a[*])  | [a[*] <= 255 && a[*] >= 127 && a[*] >= 32 && strconv.IsPrint(c)] IsPrint(a[*]); zero.WriteRune(a[*])  | [a[*] <= 31 && a[*] == 10] zero.WriteString(`\\n`)  | [a[*] <= 31 && a[*] == 13] zero.WriteString(`\\r`)  | [a[*] <= 31 && a[*] == 9] zero.WriteString(`\\t`)  | [a[*] <= 65535 && a[*] >= 127 && a[*] >= 256 && a[*] >= 32 && strconv.IsPrint(c)] IsPrint(a[*]); zero.WriteRune(a[*])  | [a[*] >= 127 && a[*] >= 256 && a[*] >= 32 && a[*] >= 65536 && strconv.IsPrint(c)] IsPrint(a[*]); zero.WriteRune(a[*]) }; zero.WriteRune(39); zero.String() -> (*bytes.Buffer).String#0",
+		"[!(ascii) && strings.ContainsRune(s, '\"') && strings.ContainsRune(s, '\\'')] ContainsRune(a, 39); ContainsRune(a, 34); zero.WriteRune(39); LOOP(range s){[!(strconv.IsPrint(c)) && a[*] <= 255 && a[*] >= 127 && a[*] >= 32] IsPrint(a[*]); Fprintf(zero, \"\\\\x%02x\", a[*])  | [!(strconv.IsPrint(c)) && a[*] <= 65535 && a[*] >= 127 && a[*] >= 256 && a[*] >= 32] IsPrint(a[*]); Fprintf(zero, \"\\\\u%04x\", a[*])  | [!(strconv.IsPrint(c)) && a[*] >= 127 && a[*] >= 256 && a[*] >= 32 && a[*] >= 65536] IsPrint(a[*]); Fprintf(zero, \"\\\\U%08x\", a[*])  | [a[*] != 10 && a[*] != 13 && a[*] != 9 && a[*] <= 31] Fprintf(zero, `\\x%02x`, a[*])  | [a[*] != 39 && a[*] != 92 && a[*] <= 126 && a[*] >= 32] zero.WriteRune(a[*])  | [a[*] <= 126 && a[*] == 39 && a[*] >= 32] zero.WriteRune(92); zero.WriteRune(a[*])  | [a[*] <= 126 && a[*] == 92 && a[*] >= 32] zero.WriteRune(92); zero.WriteRune(a[*])  | [a[*] <= 255 && a[*] >= 127 && a[*] >= 32 && strconv.IsPrint(c)] IsPrint(a[*]); zero.WriteRune(a[*])  | [a[*] <= 31 && a[*] == 10] zero.WriteString(`\\n`)  | [a[*] <= 31 && a[*] == 13] zero.WriteString(`\\r`)  | [a[*] <= 31 && a[*] == 9] zero.WriteString(`\\t`)  | [a[*] <= 65535 && a[*] >= 127 && a[*] >= 256 && a[*] >= 32 && strconv.IsPrint(c)] IsPrint(a[*]); zero.WriteRune(a[*])  | [a[*] >= 127 && a[*] >= 256 && a[*] >= 32 && a[*] >= 65536 && strconv.IsPrint(c)] IsPrint(a[*]); zero.WriteRune(a[*]) }; zero.WriteRune(39); zero.String() -> (*bytes.Buffer).String#0",
+		"[!(strings.ContainsRune(s, '\"')) && ascii && strings.ContainsRune(s, '\\'')] ContainsRune(a, 39); ContainsRune(a, 34); LOOP(range s){[a[*] != 10 && a[*] != 13 && a[*] != 9 && a[*] <= 31] Fprintf(zero, `\\x%02x`, a[*])  | [a[*] <= 126 && a[*] <= 255 && a[*] >= 32] zero.WriteRune(a[*])  | [a[*] <= 255 && a[*] >= 127 && a[*] >= 32] Fprintf(zero, \"\\\\x%02x\", a[*])  | [a[*] <= 31 && a[*] == 10] zero.WriteString(`\\n`)  | [a[*] <= 31 && a[*] == 13] zero.WriteString(`\\r`)  | [a[*] <= 31 && a[*] == 9] zero.WriteString(`\\t`)  | [a[*] <= 65535 && a[*] >= 256 && a[*] >= 32] Fprintf(zero, \"\\\\u%04x\", a[*])  | [a[*] >= 256 && a[*] >= 32 && a[*] >= 65536] Fprintf(zero, \"\\\\U%08x\", a[*]) }; zero.String() -> (*bytes.Buffer).String#0",
+		"[!(strings.ContainsRune(s, '\\'')) && ascii] ContainsRune(a, 39); LOOP(range s){[a[*] != 10 && a[*] != 13 && a[*] != 9 && a[*] <= 31] Fprintf(zero, `\\x%02x`, a[*])  | [a[*] <= 126 && a[*] <= 255 && a[*] >= 32] zero.WriteRune(a[*])  | [a[*] <= 255 && a[*] >= 127 && a[*] >= 32] Fprintf(zero, \"\\\\x%02x\", a[*])  | [a[*] <= 31 && a[*] == 10] zero.WriteString(`\\n`)  | [a[*] <= 31 && a[*] == 13] zero.WriteString(`\\r`)  | [a[*] <= 31 && a[*] == 9] zero.WriteString(`\\t`)  | [a[*] <= 65535 && a[*] >= 256 && a[*] >= 32] Fprintf(zero, \"\\\\u%04x\", a[*])  | [a[*] >= 256 && a[*] >= 32 && a[*] >= 65536] Fprintf(zero, \"\\\\U%08x\", a[*]) }; zero.String() -> (*bytes.Buffer).String#0",
+		"[ascii && strings.ContainsRune(s, '\"') && strings.ContainsRune(s, '\\'')] ContainsRune(a, 39); ContainsRune(a, 34); LOOP(range s){[a[*] != 10 && a[*] != 13 && a[*] != 9 && a[*] <= 31] Fprintf(zero, `\\x%02x`, a[*])  | [a[*] <= 126 && a[*] <= 255 && a[*] >= 32] zero.WriteRune(a[*])  | [a[*] <= 255 && a[*] >= 127 && a[*] >= 32] Fprintf(zero, \"\\\\x%02x\", a[*])  | [a[*] <= 31 && a[*] == 10] zero.WriteString(`\\n`)  | [a[*] <= 31 && a[*] == 13] zero.WriteString(`\\r`)  | [a[*] <= 31 && a[*] == 9] zero.WriteString(`\\t`)  | [a[*] <= 65535 && a[*] >= 256 && a[*] >= 32] Fprintf(zero, \"\\\\u%04x\", a[*])  | [a[*] >= 256 && a[*] >= 32 && a[*] >= 65536] Fprintf(zero, \"\\\\U%08x\", a[*]) }; zero.String() -> (*bytes.Buffer).String#0",
 	}
 	// list item and slice assignment: indices from GetIndices/IndexIntCheck; simple slices read the operand first, copy the tail unconditionally, splice; extended slices check the length and store by counting slicelength items [listobject.c list_ass_subscript]  []
 	pathSpec["py|List.M__setitem__"] = []string{
 		"[!(key.(*Slice)) && err != nil] IndexIntCheck(key, len(l.Items)) -> nil, err!",
 		"[!(key.(*Slice)) && err == nil] IndexIntCheck(key, len(l.Items)); l.Items[i] = value -> None, nil",
-		"[key.(*Slice) && err != nil] key.GetIndices(len(l.Items)) -> nil, err!",
-		"[key.(*Slice) && err == nil && step != 1 && len(newItems) != slicelength] key.GetIndices(len(l.Items)); SequenceTuple(value); ExceptionNewf(ValueError, lit, len(py.SequenceTuple#0), ret:slice.GetIndices(len(l.Items))) -> nil, err!",
-		"[key.(*Slice) && err == nil && step != 1 && len(newItems) == slicelength] key.GetIndices(len(l.Items)); SequenceTuple(value); LOOP(for i, j := start, 0; j < slicelength; i, j = i+step, j+1){[]  } -> None, nil",
-		"[key.(*Slice) && err == nil && step != 1] key.GetIndices(len(l.Items)); SequenceTuple(value) -> nil, err!",
-		"[key.(*Slice) && err == nil && step == 1] key.GetIndices(len(l.Items)); SequenceTuple(value) -> nil, err!",
-		"[key.(*Slice) && err == nil && step == 1] key.GetIndices(len(l.Items)); SequenceTuple(value); l.Items = append(l.Items[:start], py.SequenceTuple#0); l.Items = append(l.Items, copy-of[l.Items[stop:]]) -> None, nil",
+		"[err != nil && key.(*Slice)] key.GetIndices(len(l.Items)) -> nil, err!",
+		"[err == nil && key.(*Slice) && len(py.SequenceTuple#0) - ret#3:slice.GetIndices(len(l.Items)) != 0 && ret#2:slice.GetIndices(len(l.Items)) != 1] key.GetIndices(len(l.Items)); SequenceTuple(value); ExceptionNewf(ValueError, lit, len(py.SequenceTuple#0), ret#3:slice.GetIndices(len(l.Items))) -> nil, err!",
+		"[err == nil && key.(*Slice) && len(py.SequenceTuple#0) - ret#3:slice.GetIndices(len(l.Items)) == 0 && ret#2:slice.GetIndices(len(l.Items)) != 1] key.GetIndices(len(l.Items)); SequenceTuple(value); LOOP(for i, j := start, 0; j < slicelength; i, j = i+step, j+1){[]  } -> None, nil",
+		"[err == nil && key.(*Slice) && ret#0:slice.GetIndices(len(l.Items)) - ret#1:slice.GetIndices(len(l.Items)) <= 0 && ret#2:slice.GetIndices(len(l.Items)) == 1] key.GetIndices(len(l.Items)); SequenceTuple(value) -> nil, err!",
+		"[err == nil && key.(*Slice) && ret#0:slice.GetIndices(len(l.Items)) - ret#1:slice.GetIndices(len(l.Items)) <= 0 && ret#2:slice.GetIndices(len(l.Items)) == 1] key.GetIndices(len(l.Items)); SequenceTuple(value); l.Items = append(l.Items[:start], py.SequenceTuple#0); l.Items = append(l.Items, copy-of[l.Items[stop:]]) -> None, nil",
+		"[err == nil && key.(*Slice) && ret#0:slice.GetIndices(len(l.Items)) - ret#1:slice.GetIndices(len(l.Items)) >= 1 && ret#2:slice.GetIndices(len(l.Items)) == 1] key.GetIndices(len(l.Items)); SequenceTuple(value) -> nil, err!",
+		"[err == nil && key.(*Slice) && ret#0:slice.GetIndices(len(l.Items)) - ret#1:slice.GetIndices(len(l.Items)) >= 1 && ret#2:slice.GetIndices(len(l.Items)) == 1] key.GetIndices(len(l.Items)); SequenceTuple(value); l.Items = append(l.Items[:start], py.SequenceTuple#0); l.Items = append(l.Items, copy-of[l.Items[stop:]]) -> None, nil",
+		"[err == nil && key.(*Slice) && ret#2:slice.GetIndices(len(l.Items)) != 1] key.GetIndices(len(l.Items)); SequenceTuple(value) -> nil, err!",
 	}
 	// list item and slice deletion: simple slices clamp stop to start and splice; extended slices delete slicelength items in ascending order, starting for a negative step from start+step*(slicelength-1) [listobject.c list_ass_subscript]  []
 	pathSpec["py|List.M__delitem__"] = []string{
 		"[!(key.(*Slice)) && err != nil] IndexIntCheck(key, len(a.Items)) -> nil, err!",
-		"[!(key.(*Slice)) && err == nil] IndexIntCheck(key, len(a.Items)); a.DelItem(ret:IndexIntCheck(key, len(a.Items))) -> None, nil",
-		"[key.(*Slice) && err != nil] key.GetIndices(len(a.Items)) -> nil, err!",
-		"[key.(*Slice) && err == nil && step != 1 && step < 0] key.GetIndices(len(a.Items)); LOOP(for j := 0; j < slicelength; j++){[] a.DelItem(start + j * step - j) } -> None, nil",
-		"[key.(*Slice) && err == nil && step != 1 && step >= 0] key.GetIndices(len(a.Items)); LOOP(for j := 0; j < slicelength; j++){[] a.DelItem(start + j * step - j) } -> None, nil",
-		"[key.(*Slice) && err == nil && step == 1] key.GetIndices(len(a.Items)); a.Items = append(a.Items[:start], a.Items[stop:]) -> None, nil",
+		"[!(key.(*Slice)) && err == nil] IndexIntCheck(key, len(a.Items)); a.DelItem(ret#0:IndexIntCheck(key, len(a.Items))) -> None, nil",
+		"[err != nil && key.(*Slice)] key.GetIndices(len(a.Items)) -> nil, err!",
+		"[err == nil && key.(*Slice) && ret#0:slice.GetIndices(len(a.Items)) - ret#1:slice.GetIndices(len(a.Items)) <= 0 && ret#2:slice.GetIndices(len(a.Items)) == 1] key.GetIndices(len(a.Items)); a.Items = append(a.Items[:start], a.Items[stop:]) -> None, nil",
+		"[err == nil && key.(*Slice) && ret#0:slice.GetIndices(len(a.Items)) - ret#1:slice.GetIndices(len(a.Items)) >= 1 && ret#2:slice.GetIndices(len(a.Items)) == 1] key.GetIndices(len(a.Items)); a.Items = append(a.Items[:start], a.Items[stop:]) -> None, nil",
+		"[err == nil && key.(*Slice) && ret#2:slice.GetIndices(len(a.Items)) != 1 && ret#2:slice.GetIndices(len(a.Items)) <= -1] key.GetIndices(len(a.Items)); LOOP(for j := 0; j < slicelength; j++){[] a.DelItem(start + j * step - j) } -> None, nil",
+		"[err == nil && key.(*Slice) && ret#2:slice.GetIndices(len(a.Items)) != 1 && ret#2:slice.GetIndices(len(a.Items)) >= 0] key.GetIndices(len(a.Items)); LOOP(for j := 0; j < slicelength; j++){[] a.DelItem(start + j * step - j) } -> None, nil",
 	}
 	// in-place set operators adopt the result of the binary operator unconditionally and evaluate to the receiver  []
 	pathSpec["py|Set.inPlace"] = []string{
+		"[!(res.(*Set)) && err == nil]  -> res, nil",
 		"[err != nil]  -> nil, err!",
-		"[err == nil && !(res.(*Set))]  -> res, nil",
 		"[err == nil && res.(*Set)] s.items = res.items -> s, nil",
 	}
 	// sort comparison: items fetched, key function applied to both, then a strict less-than with the operands exchanged for reverse (not the result inverted, which is not a strict order and breaks stability)  []
 	pathSpec["py|ptrSortable.Less"] = []string{
+		"[!(cmpResult.(Bool)) && !(s.s.reverse) && err == nil && s.s.keyFunc != None] s.s.l.M__getitem__(i); s.s.l.M__getitem__(j); Call(s.s.keyFunc, composite[(*py.List).M__getitem__#0], nil); Call(s.s.keyFunc, composite[(*py.List).M__getitem__#0], nil); Lt(py.Call#0, py.Call#0) -> false",
+		"[!(cmpResult.(Bool)) && !(s.s.reverse) && err == nil && s.s.keyFunc == None] s.s.l.M__getitem__(i); s.s.l.M__getitem__(j); Lt((*py.List).M__getitem__#0, (*py.List).M__getitem__#0) -> false",
+		"[!(cmpResult.(Bool)) && err == nil && s.s.keyFunc != None && s.s.reverse] s.s.l.M__getitem__(i); s.s.l.M__getitem__(j); Call(s.s.keyFunc, composite[(*py.List).M__getitem__#0], nil); Call(s.s.keyFunc, composite[(*py.List).M__getitem__#0], nil); Lt(py.Call#0, py.Call#0) -> false",
+		"[!(cmpResult.(Bool)) && err == nil && s.s.keyFunc == None && s.s.reverse] s.s.l.M__getitem__(i); s.s.l.M__getitem__(j); Lt((*py.List).M__getitem__#0, (*py.List).M__getitem__#0) -> false",
+		"[!(s.s.reverse) && cmpResult.(Bool) && err == nil && s.s.keyFunc != None] s.s.l.M__getitem__(i); s.s.l.M__getitem__(j); Call(s.s.keyFunc, composite[(*py.List).M__getitem__#0], nil); Call(s.s.keyFunc, composite[(*py.List).M__getitem__#0], nil); Lt(py.Call#0, py.Call#0) -> py.Lt#0",
+		"[!(s.s.reverse) && cmpResult.(Bool) && err == nil && s.s.keyFunc == None] s.s.l.M__getitem__(i); s.s.l.M__getitem__(j); Lt((*py.List).M__getitem__#0, (*py.List).M__getitem__#0) -> py.Lt#0",
+		"[!(s.s.reverse) && err == nil && s.s.firstErr != nil && s.s.keyFunc != None] s.s.l.M__getitem__(i); s.s.l.M__getitem__(j); Call(s.s.keyFunc, composite[(*py.List).M__getitem__#0], nil); Call(s.s.keyFunc, composite[(*py.List).M__getitem__#0], nil); Lt(py.Call#0, py.Call#0) -> false",
+		"[!(s.s.reverse) && err == nil && s.s.firstErr != nil && s.s.keyFunc == None] s.s.l.M__getitem__(i); s.s.l.M__getitem__(j); Lt((*py.List).M__getitem__#0, (*py.List).M__getitem__#0) -> false",
+		"[!(s.s.reverse) && err == nil && s.s.firstErr == nil && s.s.keyFunc != None] s.s.l.M__getitem__(i); s.s.l.M__getitem__(j); Call(s.s.keyFunc, composite[(*py.List).M__getitem__#0], nil); Call(s.s.keyFunc, composite[(*py.List).M__getitem__#0], nil); Lt(py.Call#0, py.Call#0); s.s.firstErr = err! -> false",
+		"[!(s.s.reverse) && err == nil && s.s.firstErr == nil && s.s.keyFunc == None] s.s.l.M__getitem__(i); s.s.l.M__getitem__(j); Lt((*py.List).M__getitem__#0, (*py.List).M__getitem__#0); s.s.firstErr = err! -> false",
+		"[cmpResult.(Bool) && err == nil && s.s.keyFunc != None && s.s.reverse] s.s.l.M__getitem__(i); s.s.l.M__getitem__(j); Call(s.s.keyFunc, composite[(*py.List).M__getitem__#0], nil); Call(s.s.keyFunc, composite[(*py.List).M__getitem__#0], nil); Lt(py.Call#0, py.Call#0) -> py.Lt#0",
+		"[cmpResult.(Bool) && err == nil && s.s.keyFunc == None && s.s.reverse] s.s.l.M__getitem__(i); s.s.l.M__getitem__(j); Lt((*py.List).M__getitem__#0, (*py.List).M__getitem__#0) -> py.Lt#0",
 		"[err != nil && s.s.firstErr != nil] s.s.l.M__getitem__(i) -> false",
 		"[err != nil && s.s.firstErr == nil] s.s.l.M__getitem__(i); s.s.firstErr = err! -> false",
+		"[err == nil && s.s.firstErr != nil && s.s.keyFunc != None && s.s.reverse] s.s.l.M__getitem__(i); s.s.l.M__getitem__(j); Call(s.s.keyFunc, composite[(*py.List).M__getitem__#0], nil); Call(s.s.keyFunc, composite[(*py.List).M__getitem__#0], nil); Lt(py.Call#0, py.Call#0) -> false",
+		"[err == nil && s.s.firstErr != nil && s.s.keyFunc != None] s.s.l.M__getitem__(i); s.s.l.M__getitem__(j); Call(s.s.keyFunc, composite[(*py.List).M__getitem__#0], nil) -> false",
+		"[err == nil && s.s.firstErr != nil && s.s.keyFunc != None] s.s.l.M__getitem__(i); s.s.l.M__getitem__(j); Call(s.s.keyFunc, composite[(*py.List).M__getitem__#0], nil); Call(s.s.keyFunc, composite[(*py.List).M__getitem__#0], nil) -> false",
+		"[err == nil && s.s.firstErr != nil && s.s.keyFunc == None && s.s.reverse] s.s.l.M__getitem__(i); s.s.l.M__getitem__(j); Lt((*py.List).M__getitem__#0, (*py.List).M__getitem__#0) -> false",
 		"[err == nil && s.s.firstErr != nil] s.s.l.M__getitem__(i); s.s.l.M__getitem__(j) -> false",
+		"[err == nil && s.s.firstErr == nil && s.s.keyFunc != None && s.s.reverse] s.s.l.M__getitem__(i); s.s.l.M__getitem__(j); Call(s.s.keyFunc, composite[(*py.List).M__getitem__#0], nil); Call(s.s.keyFunc, composite[(*py.List).M__getitem__#0], nil); Lt(py.Call#0, py.Call#0); s.s.firstErr = err! -> false",
+		"[err == nil && s.s.firstErr == nil && s.s.keyFunc != None] s.s.l.M__getitem__(i); s.s.l.M__getitem__(j); Call(s.s.keyFunc, composite[(*py.List).M__getitem__#0], nil); Call(s.s.keyFunc, composite[(*py.List).M__getitem__#0], nil); s.s.firstErr = err! -> false",
+		"[err == nil && s.s.firstErr == nil && s.s.keyFunc != None] s.s.l.M__getitem__(i); s.s.l.M__getitem__(j); Call(s.s.keyFunc, composite[(*py.List).M__getitem__#0], nil); s.s.firstErr = err! -> false",
+		"[err == nil && s.s.firstErr == nil && s.s.keyFunc == None && s.s.reverse] s.s.l.M__getitem__(i); s.s.l.M__getitem__(j); Lt((*py.List).M__getitem__#0, (*py.List).M__getitem__#0); s.s.firstErr = err! -> false",
 		"[err == nil && s.s.firstErr == nil] s.s.l.M__getitem__(i); s.s.l.M__getitem__(j); s.s.firstErr = err! -> false",
-		"[err == nil && s.s.keyFunc != None && !(s.s.reverse) && !(cmpResult.(Bool))] s.s.l.M__getitem__(i); s.s.l.M__getitem__(j); Call(s.s.keyFunc, composite[(*py.List).M__getitem__#0], nil); Call(s.s.keyFunc, composite[(*py.List).M__getitem__#0], nil); Lt(py.Call#0, py.Call#0) -> false",
-		"[err == nil && s.s.keyFunc != None && !(s.s.reverse) && cmpResult.(Bool)] s.s.l.M__getitem__(i); s.s.l.M__getitem__(j); Call(s.s.keyFunc, composite[(*py.List).M__getitem__#0], nil); Call(s.s.keyFunc, composite[(*py.List).M__getitem__#0], nil); Lt(py.Call#0, py.Call#0) -> py.Lt#0",
-		"[err == nil && s.s.keyFunc != None && !(s.s.reverse) && s.s.firstErr != nil] s.s.l.M__getitem__(i); s.s.l.M__getitem__(j); Call(s.s.keyFunc, composite[(*py.List).M__getitem__#0], nil); Call(s.s.keyFunc, composite[(*py.List).M__getitem__#0], nil); Lt(py.Call#0, py.Call#0) -> false",
-		"[err == nil && s.s.keyFunc != None && !(s.s.reverse) && s.s.firstErr == nil] s.s.l.M__getitem__(i); s.s.l.M__getitem__(j); Call(s.s.keyFunc, composite[(*py.List).M__getitem__#0], nil); Call(s.s.keyFunc, composite[(*py.List).M__getitem__#0], nil); Lt(py.Call#0, py.Call#0); s.s.firstErr = err! -> false",
-		"[err == nil && s.s.keyFunc != None && s.s.firstErr != nil] s.s.l.M__getitem__(i); s.s.l.M__getitem__(j); Call(s.s.keyFunc, composite[(*py.List).M__getitem__#0], nil) -> false",
-		"[err == nil && s.s.keyFunc != None && s.s.firstErr != nil] s.s.l.M__getitem__(i); s.s.l.M__getitem__(j); Call(s.s.keyFunc, composite[(*py.List).M__getitem__#0], nil); Call(s.s.keyFunc, composite[(*py.List).M__getitem__#0], nil) -> false",
-		"[err == nil && s.s.keyFunc != None && s.s.firstErr == nil] s.s.l.M__getitem__(i); s.s.l.M__getitem__(j); Call(s.s.keyFunc, composite[(*py.List).M__getitem__#0], nil); Call(s.s.keyFunc, composite[(*py.List).M__getitem__#0], nil); s.s.firstErr = err! -> false",
-		"[err == nil && s.s.keyFunc != None && s.s.firstErr == nil] s.s.l.M__getitem__(i); s.s.l.M__getitem__(j); Call(s.s.keyFunc, composite[(*py.List).M__getitem__#0], nil); s.s.firstErr = err! -> false",
-		"[err == nil && s.s.keyFunc != None && s.s.reverse && !(cmpResult.(Bool))] s.s.l.M__getitem__(i); s.s.l.M__getitem__(j); Call(s.s.keyFunc, composite[(*py.List).M__getitem__#0], nil); Call(s.s.keyFunc, composite[(*py.List).M__getitem__#0], nil); Lt(py.Call#0, py.Call#0) -> false",
-		"[err == nil && s.s.keyFunc != None && s.s.reverse && cmpResult.(Bool)] s.s.l.M__getitem__(i); s.s.l.M__getitem__(j); Call(s.s.keyFunc, composite[(*py.List).M__getitem__#0], nil); Call(s.s.keyFunc, composite[(*py.List).M__getitem__#0], nil); Lt(py.Call#0, py.Call#0) -> py.Lt#0",
-		"[err == nil && s.s.keyFunc != None && s.s.reverse && s.s.firstErr != nil] s.s.l.M__getitem__(i); s.s.l.M__getitem__(j); Call(s.s.keyFunc, composite[(*py.List).M__getitem__#0], nil); Call(s.s.keyFunc, composite[(*py.List).M__getitem__#0], nil); Lt(py.Call#0, py.Call#0) -> false",
-		"[err == nil && s.s.keyFunc != None && s.s.reverse && s.s.firstErr == nil] s.s.l.M__getitem__(i); s.s.l.M__getitem__(j); Call(s.s.keyFunc, composite[(*py.List).M__getitem__#0], nil); Call(s.s.keyFunc, composite[(*py.List).M__getitem__#0], nil); Lt(py.Call#0, py.Call#0); s.s.firstErr = err! -> false",
-		"[err == nil && s.s.keyFunc == None && !(s.s.reverse) && !(cmpResult.(Bool))] s.s.l.M__getitem__(i); s.s.l.M__getitem__(j); Lt((*py.List).M__getitem__#0, (*py.List).M__getitem__#0) -> false",
-		"[err == nil && s.s.keyFunc == None && !(s.s.reverse) && cmpResult.(Bool)] s.s.l.M__getitem__(i); s.s.l.M__getitem__(j); Lt((*py.List).M__getitem__#0, (*py.List).M__getitem__#0) -> py.Lt#0",
-		"[err == nil && s.s.keyFunc == None && !(s.s.reverse) && s.s.firstErr != nil] s.s.l.M__getitem__(i); s.s.l.M__getitem__(j); Lt((*py.List).M__getitem__#0, (*py.List).M__getitem__#0) -> false",
-		"[err == nil && s.s.keyFunc == None && !(s.s.reverse) && s.s.firstErr == nil] s.s.l.M__getitem__(i); s.s.l.M__getitem__(j); Lt((*py.List).M__getitem__#0, (*py.List).M__getitem__#0); s.s.firstErr = err! -> false",
-		"[err == nil && s.s.keyFunc == None && s.s.reverse && !(cmpResult.(Bool))] s.s.l.M__getitem__(i); s.s.l.M__getitem__(j); Lt((*py.List).M__getitem__#0, (*py.List).M__getitem__#0) -> false",
-		"[err == nil && s.s.keyFunc == None && s.s.reverse && cmpResult.(Bool)] s.s.l.M__getitem__(i); s.s.l.M__getitem__(j); Lt((*py.List).M__getitem__#0, (*py.List).M__getitem__#0) -> py.Lt#0",
-		"[err == nil && s.s.keyFunc == None && s.s.reverse && s.s.firstErr != nil] s.s.l.M__getitem__(i); s.s.l.M__getitem__(j); Lt((*py.List).M__getitem__#0, (*py.List).M__getitem__#0) -> false",
-		"[err == nil && s.s.keyFunc == None && s.s.reverse && s.s.firstErr == nil] s.s.l.M__getitem__(i); s.s.l.M__getitem__(j); Lt((*py.List).M__getitem__#0, (*py.List).M__getitem__#0); s.s.firstErr = err! -> false",
 	}
 }
